@@ -15,7 +15,7 @@ def big_schedules(n, bounds, rnd, deep):
     if n < 2:
         return [[n], [0, n, 0]]
     out = [[n]]
-    for sz in (MiB, 65536, 4096) + ((512,) if deep else ()):
+    for sz in (MiB, 65536, 4096, 512):       # 512 is what FileInspector.from_file reads
         if sz < n:
             q, r = divmod(n, sz)
             out.append([sz] * q + ([r] if r else []))
@@ -104,7 +104,9 @@ def run(ctx):
         keep = [L for L in hostile if L['fmt'] != 'vhdx']
         vh = [L for L in hostile if L['fmt'] == 'vhdx']
         rnd.shuffle(vh)
-        hostile = keep + vh[:24]
+        # one of every combination of the announced-length family, a sample of the rest
+        special = [L for L in vh if L.get('meta_len') != '1048576' and L['item_len'] == '2^32-1']
+        hostile = keep + special + [L for L in vh if L not in special][:24]
     items = [(i, 'layout', L) for i, L in enumerate(hostile)]
     nfuzz = 250 if quick else 3000
     items += [(1000 + i, 'fuzz', None) for i in range(nfuzz)]
